@@ -39,7 +39,9 @@ func TestWindowedRandom(t *testing.T) {
 			}
 			infl := r.between(0, 30)
 			drop := r.chance(1, 6)
+			ext := false
 			if r.chance(1, 10) {
+				ext = true
 				// the delegate's estimate moves without the wrapper (an explicit set, or the delegate being sampled directly)
 				del.mu.Lock()
 				del.est = r.between(1, 50)
@@ -57,7 +59,7 @@ func TestWindowedRandom(t *testing.T) {
 				out = append(out, J{"rtt": ns, "inflight": s["inflight"], "drop": s["drop"]})
 			}
 			w.write(J{"ev": "Sample", "trace": k, "in": J{"t": T, "rtt": rtt, "inflight": infl, "drop": drop}, "out": out,
-				"est": wl.EstimatedLimit(), "dest": del.EstimatedLimit()})
+				"est": wl.EstimatedLimit(), "dest": del.EstimatedLimit(), "ext": ext})
 		}
 	}
 }
